@@ -14,7 +14,7 @@ from pathlib import Path
 from . import mir as M
 from . import symex as S
 from .symex import bvconst
-from .obligations import Solver, dump_mir, sym, events, ENV
+from .obligations import Solver, dump_mir, sym, events, ENV, set_layout, stack_capacity_cell
 
 MAXU = (1 << 64) - 1
 
@@ -219,11 +219,14 @@ def run(repo, work, seed=0):
     dis = []
     compared = 0
     for mode in ("on", "off"):
-        fns = M.parse(dump_mir(repo, Path(work) / "bval_mir", mode))
+        text = dump_mir(repo, Path(work) / "bval_mir", mode)
+        fns = M.parse(text)
+        set_layout(text)
         out = nat[mode]
         # --- into_range
         fn = M.find(fns, "into_range", "into_range")
         ex = S.Exec(fn)
+        ex.fns = fns
         paths = ex.run()
         for i, c in enumerate(rc):
             fixed = {"a1": c[0], "start_bound_kind": c[1], "start_bound_val": c[2], "end_bound_kind": c[3], "end_bound_val": c[4]}
@@ -238,9 +241,10 @@ def run(repo, work, seed=0):
         for j, (meth, ev, cases) in enumerate((("reserve", "expand", rs), ("reserve_exact", "expand_exact", rs), ("shrink_to", "resize", shr))):
             fn = M.find(fns, "src/any_vec_raw.rs", meth)
             ex = S.Exec(fn)
+            ex.fns = fns
             paths = ex.run()
             for i, c in enumerate(cases):
-                fixed = {"in_arg1__2": c[0], "in_arg1___capacity": c[1], "a2": c[2]}
+                fixed = {"in_arg1__%d" % S.POS["vec_len"]: c[0], "in_arg1___capacity": c[1], "a2": c[2]}
 
                 def outs(ex, p, ev=ev):
                     es = events(p, ev)
@@ -275,15 +279,17 @@ def run(repo, work, seed=0):
             if w[0] == "stack":
                 fn = M.find(fns, "src/mem/stack.rs", "build")
                 ex = S.Exec(fn)
+                ex.fns = fns
                 paths = ex.run()
                 fixed = {"cg_SIZE": int(w[1]), "in_arg2__size": int(w[2])}
-                kind, vals = eval_path(ex, paths, fixed, lambda ex, p: {"cap": ex.read_cell(p, "L:_0", ("n:size",), "usize")[1]} if p.outcome[0] == "return" else {}, solver)
+                kind, vals = eval_path(ex, paths, fixed, lambda ex, p: {"cap": stack_capacity_cell(ex, p)} if p.outcome[0] == "return" else {}, solver)
                 got = "return %s" % vals.get("cap") if kind == "return" else kind
                 if got != " ".join(w[3:]):
                     dis.append("Stack::build[%s] %s: encoding %s, real %s" % (mode, w[1:3], got, w[3:]))
             elif w[0] == "stackn":
                 fn = M.find(fns, "src/mem/stack_n.rs", "build")
                 ex = S.Exec(fn)
+                ex.fns = fns
                 paths = ex.run()
                 fixed = {"cg_N": int(w[1]), "cg_SIZE": int(w[2]), "in_arg2__size": int(w[3])}
                 kind, vals = eval_path(ex, paths, fixed, lambda ex, p: {}, solver)
